@@ -219,8 +219,16 @@ def lift_big_m(desc, m=10 ** 18):
     def lift(t):
         return [lift(x) for x in t] if isinstance(t, list) else (m if t % 2 else 0) + t
 
+    # exactness beyond 53 bits is only a fair demand when nothing in the problem is a float to begin with: one float
+    # entry turns a whole numpy table - and every sum it takes part in - into floats
     for c in desc["constraints"]:
-        if c["kind"] == "matrix" and ints(c["table"]):
+        if c["kind"] == "matrix" and not ints(c["table"]):
+            return False
+    for v in desc["variables"]:
+        if v.get("cost") and v["cost"]["kind"] == "dict" and not ints(v["cost"]["costs"]):
+            return False
+    for c in desc["constraints"]:
+        if c["kind"] == "matrix":
             c["table"] = lift(c["table"])
             changed = True
     return changed
